@@ -159,8 +159,8 @@ theorem reconnects (cfg : Cfg) (s : State) :
         ∀ ms, s.now + cfg.lossDelay ≤ s.now + ms →
           (step cfg (step cfg s .lost).1 (.advance ms)).2 = [.attempt] ∧
           (step cfg (step cfg s .lost).1 (.advance ms)).1.task = .connecting)) ∧
-    (s.task = .connecting → (step cfg s .refuse).1.task = .sleeping (s.now + 1000) ∧
-      ∀ ms, s.now + 1000 ≤ s.now + ms →
+    (s.task = .connecting → (step cfg s .refuse).1.task = .sleeping (s.now + cfg.retryDelay) ∧
+      ∀ ms, s.now + cfg.retryDelay ≤ s.now + ms →
         (step cfg (step cfg s .refuse).1 (.advance ms)).2 = [.attempt] ∧
         (step cfg (step cfg s .refuse).1 (.advance ms)).1.task = .connecting) ∧
     (s.task = .connecting → (step cfg s .accept).1.conn = some { k := s.nconn + 1 } ∧
